@@ -115,7 +115,8 @@ fn run_point(cfg: &RunCfg, i: usize, plan: Option<&FaultPlan>, out: &mut RunOut,
             let log = ctl.take_log();
             for r in &log {
                 let fast = matches!(r.method, "copy_file" | "move_file" | "move_dir");
-                if r.mutating && lowers.contains(&r.node) && !(fast && !r.ok) {
+                let (mp, mp2) = crate::stack::Built::mutated_paths(r.method, &r.path, r.path2.as_deref());
+                if r.mutating && cx.built[0].touches_lower(r.node, mp, mp2) && !(fast && !r.ok) {
                     po.violation = Some((format!("C20|{}|{}|{}|lower-layer-mutating-call:{}", shape, op.kind(), tcl, r.method), format!("op {} {:?}: {}('{}') issued to lower-layer node {}", j, op, r.method, r.path, r.node), step));
                     return Ok(po);
                 }
